@@ -324,7 +324,7 @@ def run(repo, tier, seed):
     E = {"exists": "CloudFileExistsError", "notfound": "CloudFileNotFoundError", "name": "CloudFileNameError"}
     universe = _ops_universe()
     depth = 3 if tier == "quick" else 4
-    n_random = 300 if tier == "quick" else 6000
+    n_random = 300 if tier == "quick" else 20000
     tmp_root = tempfile.mkdtemp(prefix="verif_prov_")
     try:
         # ---- hash law and identity check
@@ -362,7 +362,7 @@ def run(repo, tier, seed):
         seqs = []
         for n in range(1, depth + 1):
             for seq in itertools.product(universe, repeat=n):
-                if n == 4 and rng.random() > 0.02:
+                if n == 4 and rng.random() > 0.25:
                     continue
                 seqs.append(seq)
         for _ in range(n_random):
@@ -384,7 +384,7 @@ def run(repo, tier, seed):
     finally:
         shutil.rmtree(tmp_root, ignore_errors=True)
     return {"name": "providers_vs_reference_tree", "bound": "hash law for sizes %s on 5 providers; identity check; all sequences of <= %d calls (%s) over %d operations and %d random sequences of 4-8 calls on 4 mock flavours (every 16th also on the filesystem provider)"
-            % (list(SIZES), depth, "exhaustive" if tier == "quick" else "lengths 1-3 exhaustive, 2% sample of length 4", len(universe), n_random),
+            % (list(SIZES), depth, "exhaustive" if tier == "quick" else "lengths 1-3 exhaustive, 25% sample of length 4", len(universe), n_random),
             "evaluations": evaluations, "distinct_nontrivial": len(distinct), "exhaustive": False,
             "rule": "operation sequences compared call by call with a reference tree; distinct = distinct (provider, op-kind sequence)",
             "samples": samples, "failures": failures}
